@@ -68,6 +68,30 @@ def check_string(formula, values, ids=(1, 2, 3)):
     return v, n_cmp, len(inputs)
 
 
+def check_tree_3phase(tree, values):
+    names = sorted(set(F.leaves_of(tree)))
+    base = input_vectors(names, values)
+    offs = (0.0, 1.0, -2.0)
+    inputs = [{n: tuple(v[n] + o for o in offs) for n in names} for v in base]
+    out = F.run_tree_3phase(tree, inputs)
+    got = dict(out)
+    v = []
+    n_cmp = 0
+    for k, vals in enumerate(inputs):
+        per_phase = [{n: vals[n][ph] for n in names} for ph in range(3)]
+        if any(F.has_undefined(tree, pv, {}, False) for pv in per_phase):
+            continue
+        exp = tuple(F.ref_eval(tree, pv, {}, False) for pv in per_phase)
+        n_cmp += 1
+        if k not in got:
+            v.append(("one_sample_per_timestamp", {"timestamp": k, "three_phase": True, "inputs": vals}))
+        elif not all(F.close(g, e) for g, e in zip(got[k], exp)):
+            v.append(("value_equals_expression", {"timestamp": k, "three_phase": True, "inputs": vals, "got": list(got[k]), "expected": list(exp)}))
+        if len(v) >= 3:
+            break
+    return v, n_cmp, len(inputs)
+
+
 CLAUSES = ["value_equals_expression", "one_sample_per_timestamp", "samples_in_order_without_duplicates"]
 
 
@@ -75,7 +99,24 @@ def shard(args) -> Acc:
     kind, tier, lo, hi = args
     acc = Acc()
     values = VALUES_Q if tier == "quick" else VALUES_T
-    if kind == "tree":
+    if kind == "tree3":
+        n = lo[0]
+        progs = F.trees(n, leaves=["A", "B"])[lo[1]:hi]
+        for t in progs:
+            viol, n_cmp, n_in = check_tree_3phase(t, values[:3])
+            acc.evaluations += n_in
+            acc.transitions += n_in
+            acc.traces += 1
+            acc.counters["programs"] += 1
+            acc.counters["timestamps_compared"] += n_cmp
+            for c in CLAUSES:
+                acc.clauses[c] += 1
+            if F.n_ops(t) >= 1:
+                acc.nontrivial += 1
+            acc.outcome(f"tree3 ops={F.n_ops(t)}")
+            for clause, detail in viol:
+                acc.violation(Violation(clause, {"driver": "tree3", "tree": t, "shown": F.show(t), "values": values[:3]}, detail))
+    elif kind == "tree":
         n = lo[0]
         progs = F.trees(n)[lo[1]:hi]
         for t in progs:
@@ -123,6 +164,10 @@ def run(tier: str, seed: int, workers: int):
         total = len(F.trees(n))
         for lo in range(0, total, step):
             shards.append(("tree", tier, (n, lo), lo + step))
+    for n in ([1] if tier == "quick" else [1, 2]):
+        total = len(F.trees(n, leaves=["A", "B"]))
+        for lo in range(0, total, step):
+            shards.append(("tree3", tier, (n, lo), lo + step))
     mo = 3 if tier == "quick" else 4
     total = len(F.string_programs(mo))
     for lo in range(0, total, step):
@@ -136,7 +181,8 @@ def run(tier: str, seed: int, workers: int):
         "rule": "programs: every expression tree with up to 2 (quick) / 3 (thorough) operator nodes over leaves A,B,C (repeats allowed), "
         "binary + - * / max min, unary consumption/production, a constant as right operand, built through the Python operator API "
         "in the association the tree dictates; every formula string with up to 3 (quick) / 4 (thorough) operators over #1 #2 #3 with "
-        "flat, one and two (nested or disjoint) parenthesised ranges, redundant parentheses and no-whitespace variants.  Inputs: one "
+        "flat, one and two (nested or disjoint) parenthesised ranges, redundant parentheses and no-whitespace variants; the same trees with "
+        "1 (quick) / 2 (thorough) operators over 3-phase engines (FormulaEngine3Phase leaves, per-phase reference).  Inputs: one "
         "timestamp per combination of leaf values from {-7,0,3} (quick) / {-7,-1,0,0.5,3}.  A program is one trace; an evaluation "
         "is one timestamp; non-trivial = at least 2 operators and 2 distinct leaves",
         "assumptions": [
@@ -155,6 +201,9 @@ def _tuplify(t):
 
 
 def replay(case: dict):
+    if case["driver"] == "tree3":
+        v, _, _ = check_tree_3phase(_tuplify(case["tree"]), case["values"])
+        return v
     if case["driver"] == "tree":
         v, _, _ = check_tree(_tuplify(case["tree"]), case["values"])
         return v
